@@ -66,13 +66,16 @@ func FindNaluTypes(sample []byte) []NaluType {
 		return nil
 	}
 	naluList := make([]NaluType, 0, 2)
-	var pos uint32 = 0
-	for pos < uint32(length-4) {
+	pos := 0
+	for pos < length-4 {
 		naluLength := binary.BigEndian.Uint32(sample[pos : pos+4])
 		pos += 4
 		naluType := GetNaluType(sample[pos])
 		naluList = append(naluList, naluType)
-		pos += naluLength
+		if uint64(naluLength) > uint64(length-pos) {
+			break // bad length field
+		}
+		pos += int(naluLength)
 	}
 	return naluList
 }
@@ -84,13 +87,16 @@ func FindNaluTypesUpToFirstVideoNALU(sample []byte) []NaluType {
 		return nil
 	}
 	naluList := make([]NaluType, 0)
-	var pos uint32 = 0
-	for pos < uint32(length-4) {
+	pos := 0
+	for pos < length-4 {
 		naluLength := binary.BigEndian.Uint32(sample[pos : pos+4])
 		pos += 4
 		naluType := GetNaluType(sample[pos])
 		naluList = append(naluList, naluType)
-		pos += naluLength
+		if uint64(naluLength) > uint64(length-pos) {
+			break // bad length field
+		}
+		pos += int(naluLength)
 		if IsVideoNaluType(naluType) {
 			break // first video nalu
 		}
@@ -105,16 +111,19 @@ func IsIDRSample(sample []byte) bool {
 
 // ContainsNaluType - is specific NaluType present in sample
 func ContainsNaluType(sample []byte, specificNalType NaluType) bool {
-	var pos uint32 = 0
+	pos := 0
 	length := len(sample)
-	for pos < uint32(length-4) {
+	for pos < length-4 {
 		naluLength := binary.BigEndian.Uint32(sample[pos : pos+4])
 		pos += 4
 		naluType := GetNaluType(sample[pos])
 		if naluType == specificNalType {
 			return true
 		}
-		pos += naluLength
+		if uint64(naluLength) > uint64(length-pos) {
+			break // bad length field
+		}
+		pos += int(naluLength)
 	}
 	return false
 }
@@ -140,12 +149,16 @@ func HasParameterSets(b []byte) bool {
 
 // GetParameterSets - get (multiple) SPS and PPS from a sample
 func GetParameterSets(sample []byte) (sps [][]byte, pps [][]byte) {
-	sampleLength := uint32(len(sample))
-	var pos uint32 = 0
+	sampleLength := len(sample)
+	pos := 0
 naluLoop:
-	for pos < sampleLength {
-		naluLength := binary.BigEndian.Uint32(sample[pos : pos+4])
+	for pos < sampleLength-4 {
+		naluLen := binary.BigEndian.Uint32(sample[pos : pos+4])
 		pos += 4
+		if uint64(naluLen) > uint64(sampleLength-pos) {
+			break // bad length field
+		}
+		naluLength := int(naluLen)
 		naluHdr := sample[pos]
 		switch naluType := GetNaluType(naluHdr); {
 		case naluType == NALU_SPS:
